@@ -493,6 +493,14 @@ class Facts:
     def ext_enum(self, path):
         return self._EXT.get(path)
 
+    def adt_by_label(self, label):
+        from .lib import strip_generics
+        if not hasattr(self, '_adt_labels'):
+            self._adt_labels = {}
+            for path in self.adts:
+                self._adt_labels.setdefault(strip_generics(path), path)
+        return self._adt_labels.get(label)
+
     def body(self, id_):
         b = self.bodies.get(id_)
         if b is None:
